@@ -310,3 +310,77 @@ fn key_from_parts() {
     }
 }
 
+
+// ---- HttpConnection over an in-memory duplex stream (hc.*, send.version, proto.*) ----
+async fn duplex() -> (crate::client::conn::Stream, crate::client::conn::Stream) {
+    use futures_util::stream::StreamExt as _;
+    let (client, mut incoming) = crate::stream::duplex::pair();
+    let (tx, rx) = tokio::join!(client.connect(1024), incoming.next());
+    (tx.unwrap().into(), rx.unwrap().unwrap().into())
+}
+
+async fn first_line(
+    proto: crate::client::conn::protocol::HttpProtocol,
+    request_version: http::Version,
+) -> (String, bool, bool, bool, http::Version) {
+    use crate::client::conn::connection::ConnectionExt as _;
+    use crate::client::conn::protocol::auto::HttpConnectionBuilder;
+    use crate::client::conn::Protocol as _;
+    use crate::client::pool::PoolableConnection as _;
+    use tokio::io::{AsyncBufReadExt, BufReader};
+
+    let mut builder = HttpConnectionBuilder::default();
+    let (stream, rx) = duplex().await;
+    let mut conn = builder.connect(stream, proto).await.unwrap();
+    conn.when_ready().await.unwrap();
+    let open = conn.is_open();
+    let share = conn.can_share();
+    let reuse = conn.reuse().is_some();
+    let version = conn.version();
+    let request = http::Request::builder()
+        .version(request_version)
+        .method(http::Method::GET)
+        .uri("/x")
+        .header("host", "localhost")
+        .body(crate::body::Body::empty())
+        .unwrap();
+    let fut = conn.send_request(request);
+    let server = async move {
+        let mut buf = String::new();
+        let _ = BufReader::new(rx).read_line(&mut buf).await;
+        buf
+    };
+    let line = tokio::select! {
+        line = server => line,
+        _ = async { let _ = fut.await; std::future::pending::<()>().await } => unreachable!(),
+    };
+    (line, open, share, reuse, version)
+}
+
+/// send.version / hc.version: whatever version the request carries, an HTTP/1 connection sends HTTP/1.1 and
+/// an HTTP/2 connection speaks HTTP/2; hc.share / hc.reuse / hc.open: only the HTTP/2 connection is shareable
+#[tokio::test]
+async fn hc_send_version() {
+    use crate::client::conn::protocol::HttpProtocol;
+    for rv in VERSIONS {
+        let (line, open, share, reuse, version) = first_line(HttpProtocol::Http1, rv).await;
+        assert_eq!(line, "GET /x HTTP/1.1\r\n", "request version {rv:?} on an HTTP/1 connection");
+        assert!(open && !share && !reuse);
+        assert_eq!(version, http::Version::HTTP_11);
+    }
+    for rv in VERSIONS {
+        let (line, open, share, reuse, version) = first_line(HttpProtocol::Http2, rv).await;
+        assert_eq!(line, "PRI * HTTP/2.0\r\n", "request version {rv:?} on an HTTP/2 connection");
+        assert!(open && share && reuse);
+        assert_eq!(version, http::Version::HTTP_2);
+    }
+}
+
+/// proto.multiplex / proto.version
+#[test]
+fn proto_choice() {
+    use crate::client::conn::protocol::HttpProtocol;
+    assert!(!HttpProtocol::Http1.multiplex() && HttpProtocol::Http2.multiplex());
+    assert_eq!(HttpProtocol::Http1.version(), http::Version::HTTP_11);
+    assert_eq!(HttpProtocol::Http2.version(), http::Version::HTTP_2);
+}
